@@ -19,7 +19,11 @@ CLAIMS = {
     text="Theorems (Props/C05): for any initial bucket bytes and any history of appended records, lookup is decided by the "
          "last record of that key (entry, or absent for a tombstone); records of other keys are irrelevant; induction over "
          "histories via the cut lemma, generic in the codec laws. Correspondence: random histories of writes / removals "
-         "through all entry points and flavours against the model and a dictionary monitor.",
+         "through all entry points and flavours against the model and a dictionary monitor. PROGRAM LEVEL (index_refines_map, "
+         "Lemmas/Refine): any sequence of the real programs insert / delete / find, run on the model filesystem from a "
+         "healthy index (the empty cache is one), each with its own clock answer, answers exactly like the abstract map "
+         "key -> entry, keeps the abstraction in step and the index healthy - total correctness included, SHA-1 collisions "
+         "of keys allowed; corollaries program_lookup_returns_last_insert / _absent_after_removal / _ignores_other_keys.",
     note=TB + "the index theorems are stated for any codec satisfying Codec.Laws on a set W of records; that the serde/SHA-256 "
          "codec is an instance with W = Rec.WF is PROVED (Lemmas/CodecLaws, any hash function) and instantiated as "
          "lookup_last_wins_cacache / lookup_never_written_cacache.",
